@@ -605,3 +605,35 @@ Theorem all_operator_pairs_computed :
           (concat ladder) = true /\ length (concat ladder) = 23%nat.
 Proof. vm_compute. auto. Qed.
 
+
+(* ---------- first tokens of expressions ---------- *)
+
+Definition head_in (F : list ttype) (ts : list tok) : Prop := exists t r, ts = t :: r /\ In (tty t) F.
+
+Lemma Exp_head lad (R : rel) F k ts n : (forall ts n, R ts n -> head_in F ts) -> Exp lad R k ts n -> head_in F ts.
+Proof.
+  intros HR H. induction H as [k ts n Ha|k j op tl nl tr nr Hin Hle Hl IHl Hr IHr]; [eapply HR; eauto|].
+  destruct IHl as (t & r & -> & Ht). exists t, (r ++ op :: tr). split; [reflexivity|exact Ht].
+Qed.
+
+Lemma Prim_head (RE RP : rel) ae ts n : Prim RE RP ae ts n -> head_in primary_first ts.
+Proof.
+  intro H. destruct H as [o ts n c Ho Hn Hc|op ts n Hop Hn|ts n op Hd Hop|ts n Hd|t Ht|o c Hae Ho Hc|o ts ns c Ho Ha Hc].
+  - eexists _, _. split; [reflexivity|]. rewrite Ho. simpl. tauto.
+  - eexists _, _. split; [reflexivity|]. unfold primary_first. right. right. apply in_or_app. left. exact Hop.
+  - destruct (dots_first _ _ _ _ Hd) as (t & r & -> & Ht). eexists _, _. split; [reflexivity|].
+    unfold primary_first. right. right. apply in_or_app. right. apply in_or_app. left. exact Ht.
+  - destruct (dots_first _ _ _ _ Hd) as (t & r & -> & Ht). eexists _, _. split; [reflexivity|].
+    unfold primary_first. right. right. apply in_or_app. right. apply in_or_app. left. exact Ht.
+  - eexists _, _. split; [reflexivity|]. unfold primary_first. right. right. apply in_or_app. right. apply in_or_app. right. exact Ht.
+  - eexists _, _. split; [reflexivity|]. rewrite Ho. simpl. tauto.
+  - eexists _, _. split; [reflexivity|]. rewrite Ho. simpl. tauto.
+Qed.
+
+Lemma GExpr_head f ts n : GExpr f ts n -> head_in primary_first ts.
+Proof.
+  destruct f as [|f]; [intros []|]. rewrite GExpr_S. apply Exp_head. intros ts' n' H. eapply Prim_head; eauto.
+Qed.
+
+Lemma head_in_nostart' F X ts more : head_in F ts -> disj_b F (TComment :: X) = true -> nostart X (ts ++ more).
+Proof. intros (t & r & -> & H) Hd. cbn [app]. eapply starts_nostart; eauto. Qed.
